@@ -1,6 +1,6 @@
 SPECIFICATION Spec
 CONSTANTS
-  MaxLen = 2
+  MaxLen = 1
   OpKinds = {"insert", "select", "symbols", "sql", "bogus"}
   CondKinds = {"none", "badeval"}
   Dsns = {"nodir"}
